@@ -31,7 +31,18 @@ inline Plan Gen(uint64_t seed)
       const std::string sendPfx = (inBatch ? "bsend " : "send ") + I(c) + " ";
       const std::string par = parents[wl.below(3)];
       const uint32_t k = wl.below(100);
-      if (k < 8) p.push_back(sendPfx + "setdata " + (wl.oneIn(2) ? "s" : "-") + " " + par + "=" + U(g.val++) + ":-");   // (re)create a parent node; with the supercede flag the server prunes older queued updates of that node (never its queued index instructions)
+      if ((wl.oneIn(14))&&(!g.intent[c].empty()))
+      {
+         // one BATCH: an index change followed by a request for the snapshot of nodes this client is subscribed to (the snapshot must not overtake the
+         // instructions that the change before it produced); only subscribed patterns are requested, so every replica the client builds keeps being updated
+         auto it = g.intent[c].begin(); std::advance(it, wl.below((uint32_t) g.intent[c].size()));
+         std::string before = "-"; const uint32_t b = wl.below(10); if (b < 3) before = explicitKids[wl.below(4)]; else if (b < 6) before = "I" + I(wl.below(6));
+         p.push_back("bsend " + I(c) + " insord " + Esc(par) + " " + before + " " + U(g.val++));
+         if (wl.oneIn(3)) p.push_back("bsend " + I(c) + " reorder " + Esc(par + "/" + (wl.oneIn(2) ? std::string(explicitKids[wl.below(4)]) : ("I" + I(wl.below(6))))) + " -");
+         p.push_back("bsend " + I(c) + " getdata " + Esc(*it));
+         p.push_back("bflush " + I(c));
+      }
+      else if (k < 8) p.push_back(sendPfx + "setdata " + (wl.oneIn(2) ? "s" : "-") + " " + par + "=" + U(g.val++) + ":-");   // (re)create a parent node; with the supercede flag the server prunes older queued updates of that node (never its queued index instructions)
       else if (k < 30)
       {
          // ordered insert: before a named sibling (explicit name, or a generated one I0..I5 that may or may not exist), or at the end; sometimes two per command; sometimes a wildcard parent
